@@ -263,6 +263,9 @@ func randomDef(r *rng, k streamKnobs, local byte) defn {
 	}
 	if r.chance(5) {
 		d.resv = byte(r.next()) // reserved byte: any value, ignored by readers
+		if r.chance(30) {
+			d.hbits = 0x10 // reserved bit of the record header itself
+		}
 	}
 	if r.chance(k.badDefs) {
 		d.arch = byte(2 + r.intn(254)) // not a byte order: the definition is rejected
@@ -452,7 +455,11 @@ func randomStream(r *rng, k streamKnobs) []byte {
 			if k.compressed && l < 4 && r.chance(50) {
 				b.cdata(byte(l), byte(r.intn(32)), p)
 			} else {
-				b.data(byte(l), p)
+				if r.chance(6) {
+					b.dataX(byte(l), byte(0x10*(1+r.intn(3))), p)
+				} else {
+					b.data(byte(l), p)
+				}
 			}
 		}
 	}
